@@ -203,7 +203,7 @@ class Sequences(SubCheck):
         svg = self.svg
         d = case["d"]
         try:
-            p0 = svg.Path(d)
+            p0 = out.keep(svg.Path(d))
         except Exception as e:  # noqa
             out.fail("Path(%r) raised" % d, None, repr(e), kind="exception")
             return out
@@ -213,6 +213,10 @@ class Sequences(SubCheck):
                 return out
         if len(p0) > 1:
             out.nontrivial.append(d)
+        try:
+            first_text = p0.d(relative=False)
+        except Exception:  # noqa
+            first_text = None
         M = svg.Matrix(*GMAT)
         for build in self.builds:
             if build == "parsed":
@@ -220,11 +224,11 @@ class Sequences(SubCheck):
             elif build == "rebuilt":
                 p = rebuild(svg, p0)
             elif build == "kw":
-                p = svg.Path(d=d)           # the attribute spellings of the constructor
+                p = out.keep(svg.Path(d=d))           # the attribute spellings of the constructor
             elif build == "dict":
-                p = svg.Path({"d": d, "stroke": "red"})
+                p = out.keep(svg.Path({"d": d, "stroke": "red"}))
             else:
-                p = abs(svg.Path(d) * M)
+                p = out.keep(abs(svg.Path(d) * M))
             src = list(abs(p))
             if build in ("kw", "dict"):
                 # the same path data through another constructor spelling: the source of truth is the positional parse
@@ -269,7 +273,9 @@ class Sequences(SubCheck):
                             check_roundtrip(svg, out, segs, text, "subpath %d of %r .d(relative=%r, smooth=%r)" % (si, d, r, sm),
                                             dict(build="subpath", relative=r, smooth=sm, d=d, sub=si, fragment=frag),
                                             fragment=frag)
-        out.outcome = tuple(type(s).__name__[0] for s in p0)
+        # (kinds and the text itself: what this path data means must not depend on what was parsed - and done to the
+        # result - before; the round trip alone is self-consistent and would not notice)
+        out.outcome = (tuple(type(s).__name__[0] for s in p0), first_text)
         return out
 
     def unit_test(self, case):
